@@ -95,12 +95,16 @@ theorem C17_json_grammar_dotless_partial (cfg : Config) (npl : Nat) (d : Dec)
     Serde.isJsonNumber (Serde.jsonNumText cfg npl d) = true :=
   jsonNumText_grammar_dotless cfg npl d h
 
-/-- **Partial**, stronger form: the same for the `E` notation (`d.dddE-n`, chosen for values with many leading
-    zeros) - every layout except the plain one, which is covered by the correspondence only. -/
+/-- **Partial**, stronger form: the same for every integer (scale ≤ 0, whichever layout `Display` picks: padded
+    with zeros, `<digits>e+<n>` beyond the padding limit, or dotless) and for the `E` notation (`d.dddE-n`, chosen
+    for values with many leading zeros).  What is left to the correspondence alone is the plain layout with a
+    decimal point (`fullScaleText` for scale > 0). -/
 theorem C17_json_grammar_partial (cfg : Config) (npl : Nat) (d : Dec)
-    (h : chooseNotation cfg d.int.natAbs d.scale none ≠ .full ∨ (d.int = 0 ∧ d.scale < 0)) :
-    Serde.isJsonNumber (Serde.jsonNumText cfg npl d) = true :=
-  jsonNumText_grammar_exp cfg npl d h
+    (h : d.scale ≤ 0 ∨ chooseNotation cfg d.int.natAbs d.scale none ≠ .full) :
+    Serde.isJsonNumber (Serde.jsonNumText cfg npl d) = true := by
+  rcases h with h | h
+  · exact jsonNumText_grammar_int cfg npl d h
+  · exact jsonNumText_grammar_exp cfg npl d (Or.inl h)
 
 /-- the premise is met: `1.2E-29` under the default thresholds is printed in the `E` notation -/
 example : chooseNotation (⟨100, .HalfEven, 5, 15, 1000, 150000⟩ : Config) (12 : Nat) 30 none = .exponential := by
